@@ -59,7 +59,7 @@ type directive struct {
 	bOK    bool
 	bVal   int
 	bErr   int
-	bCtx   bool // the builder error is a context cancellation
+	bCtx   bool    // the builder error is a context cancellation
 	bTTLs  []int64 // builder: WithTTL(ctx, ttl, true) calls
 	cancel func()  // builder: cancel the caller's context before returning (C04/C06)
 }
